@@ -205,12 +205,40 @@ func (in *instr) rewriteFile() {
 		case *ast.FuncDecl:
 			if x.Body != nil {
 				in.block(x.Body)
+				in.termHook(x)
 			}
 		case *ast.GenDecl:
 			// function literals in package-level var initialisers
 			in.exprLits(x)
 		}
 	}
+}
+
+// termHook: every method `WriteForLine(line int, text string)` of rare/pkg/multiterm (the one place all renderers write
+// a screen line through) reports the line to simrt first, so that a world can reconstruct the screen of every
+// intermediate render. Purely observational; a tree without such a method simply has no hook.
+func (in *instr) termHook(fd *ast.FuncDecl) {
+	if in.pkg.PkgPath != "rare/pkg/multiterm" || fd.Recv == nil || fd.Name.Name != "WriteForLine" || fd.Type.Params == nil {
+		return
+	}
+	var names []*ast.Ident
+	var kinds []string
+	for _, f := range fd.Type.Params.List {
+		t := in.info.TypeOf(f.Type)
+		if t == nil {
+			return
+		}
+		for _, n := range f.Names {
+			names = append(names, n)
+			kinds = append(kinds, t.String())
+		}
+	}
+	if len(names) != 2 || kinds[0] != "int" || kinds[1] != "string" || names[0].Name == "_" || names[1].Name == "_" {
+		return
+	}
+	in.site(fd.Pos(), "term-line")
+	hook := &ast.ExprStmt{X: call(sel("simrt", "TermLine"), ast.NewIdent(names[0].Name), ast.NewIdent(names[1].Name))}
+	fd.Body.List = append([]ast.Stmt{hook}, fd.Body.List...)
 }
 
 func isSimrtCall(c *ast.CallExpr) bool {
